@@ -26,13 +26,44 @@ def shell_env(f, extra=None):
     return env
 
 
-def run_public(repo, f, extra=None, if_handler=None):
+def run_public(repo, f, extra=None, if_handler=None, choices=None):
     env = shell_env(f, extra)
     if if_handler is not None:
         env["__if__"] = if_handler
     ex = Extractor(f, env, rule="AXTYPE-K", repo=repo)
+    if choices is not None:
+        ex.shared["choices"] = dict(choices)
     ex.run()
     return ex
+
+
+def run_public_forks(repo, f, extra_factory=None, if_handler_factory=None, limit=8):
+    """Run the kernel once per outcome of every scalar data-dependent branch that no handler decides (none on the unmodified
+    tree: one run).  -> list of (choices, extractor or the LabelMismatch raised on that path)"""
+    import itertools
+    from .stencil import NeedFork, LabelMismatch
+    out = []
+    stack = [{}]
+    seen = set()
+    while stack and len(out) < limit:
+        ch = stack.pop()
+        key = tuple(sorted(ch.items()))
+        if key in seen:
+            continue
+        seen.add(key)
+        try:
+            ex = run_public(repo, f, extra_factory() if extra_factory else None, if_handler_factory() if if_handler_factory else None, choices=ch)
+        except NeedFork as nf:
+            for v in (True, False):
+                c2 = dict(ch)
+                c2[nf.key] = v
+                stack.append(c2)
+            continue
+        except LabelMismatch as lm:
+            out.append((ch, lm))
+            continue
+        out.append((ch, ex))
+    return out
 
 
 def peel_contracts(e):
